@@ -6,7 +6,9 @@
 // "Anywhere" = every node reachable over Dir and rpc input/output from the root entry of every
 // loaded module and submodule (roots included, also of modules that hold nothing but deviations),
 // plus the entries a node keeps beside its children: deviation / deviate entries and the copies of
-// merged augments (Entry.Deviations, Entry.Deviate, Entry.Augmented).
+// merged augments (Entry.Deviations, Entry.Deviate, Entry.Augmented).  And a statement-side reading
+// of "an empty error list means there were none": after a clean Process no loaded (sub)module may
+// hold a `uses` of a grouping that does not exist (barren.go: unresolvedUses).
 package main
 
 import (
@@ -479,7 +481,7 @@ func main() {
 	res.Evaluations = int64(len(cases))
 	_ = nCorpus
 	res.DistinctNontrivial = distinct.Len()
-	res.Rule = "seeded grammar-directed module sets (harness/gen: 1-3 modules, submodules with nested includes, groupings/uses, choices, rpc/action, notifications, augments, deviations, tiny name pools, deliberate faults at a low rate; plus n/4 sets with late augments added by gen.AddLateAugments - target through or at an implied case, body with short-hand choice members, written in owner / submodule / importer - and a fixed corpus of such sets; plus n/4 sets in the files-on-disk variant: only the root modules (nobody imports them), a random subset, or one module are handed to Parse, the rest lies on the search path and is loaded by Process, the oracle walks every module that ended up loaded and the model is asked with exactly the loaded texts; plus n/4 sets where the checked Process run is the last of a sequence on one Modules value: Process twice / ClearEntryCache in between / reads with lazy input-output creation in between / cleared cache and lazy rebuild by ToEntry in between / opposite ParseOptions and AddPath before / GetModule in between; plus n/4 sets whose deviation and augment targets carry undeclared / unimported / module-name / no prefixes on the steps after the first (gen.AddOddPrefixes), and a fixed corpus of such sets with deviations and augments kept apart - deviations run after the last error sweep - written by a deviations-only module, a module with nodes and augments of its own, a submodule with per-file prefixes, loaded from the path, and as the last run of a sequence); distinct_nontrivial = distinct sets (by text) on which Process reports no errors, i.e. where the tree invariant is actually checked"
+	res.Rule = "seeded grammar-directed module sets (harness/gen: 1-3 modules, submodules with nested includes, groupings/uses, choices, rpc/action, notifications, augments, deviations, tiny name pools, deliberate faults at a low rate; plus n/4 sets with late augments added by gen.AddLateAugments - target through or at an implied case, body with short-hand choice members, written in owner / submodule / importer - and a fixed corpus of such sets; plus n/4 sets in the files-on-disk variant: only the root modules (nobody imports them), a random subset, or one module are handed to Parse, the rest lies on the search path and is loaded by Process, the oracle walks every module that ended up loaded and the model is asked with exactly the loaded texts; plus n/4 sets where the checked Process run is the last of a sequence on one Modules value: Process twice / ClearEntryCache in between / reads with lazy input-output creation in between / cleared cache and lazy rebuild by ToEntry in between / opposite ParseOptions and AddPath before / GetModule in between; plus n/4 sets whose deviation and augment targets carry undeclared / unimported / module-name / no prefixes on the steps after the first (gen.AddOddPrefixes), and a fixed corpus of such sets with deviations and augments kept apart - deviations run after the last error sweep - written by a deviations-only module, a module with nodes and augments of its own, a submodule with per-file prefixes, loaded from the path, and as the last run of a sequence; plus n/4 sets (two thirds of the hosts generated without deliberate faults) with augments whose body contributes no node (gen.AddBarrenAugments: nothing / only when, if-feature, description, status, reference / only uses of empty groupings), half of them carrying a fault that is recorded on the augment entry alone - uses of a grouping that does not exist (bare, own prefix, import prefix, undeclared prefix, scoped inside a container), beside empty groupings in either order, beside decorations, twice, with substatements, a grouping whose only statement is dropped - written in module / submodule / importer, into container, list, choice, case, notification, explicit and lazily created rpc and action input / output, through implied cases, and into nodes another new augment grafts (chained, either order), some as raw text / from the path / last run of a sequence; and a fixed corpus of such sets (barrenCorpus: 14 target kinds x 14 bodies x 3 writers, one fault per set); distinct_nontrivial = distinct sets (by text) on which Process reports no errors, i.e. where the tree invariant is actually checked"
 	res.Distribution["clean_sets"] = clean
 	res.Distribution["sets_with_errors"] = withErr
 	res.Distribution["sets_with_late_errors(merge/deviation)"] = late
@@ -511,7 +513,9 @@ func countErrs(d []string) int {
 
 // knownLateLoad recognises finding D04-P1 and nothing else: a files-on-disk run in which every
 // finding is "unapplied augment left at /<M>" for a module <M> that goyang read from the path
-// after the linking walk (rescorr: late_loaded), i.e. after the augment work list was drawn up.
+// after the linking walk (rescorr: late_loaded), i.e. after the augment work list was drawn up; or
+// the statement-side view of the same thing: a uses of a missing grouping in the body of an augment
+// of such a module <M>, when "unapplied augment left at /<M>" is among the findings too.
 func knownLateLoad(o rescorr.Outcome) string {
 	if !rescorr.FromPath(o.Case) || len(o.Go.Extra["late_loaded"]) == 0 || len(o.Go.Findings) == 0 {
 		return ""
